@@ -33,6 +33,7 @@ type DriverCfg struct {
 	Metadata   bool // random metadata/tags on writes
 	Checksums  bool // supply (right and wrong) checksums
 	BigBodies  bool // multi-MiB bodies
+	HugeBodies int  // at most that many bodies per run around the 8 MiB chunk size of the outbox / SQL part stores
 	BodySizes  []int
 	// RepeatPartBodies: parts of one multipart upload reuse the previous part's
 	// body half of the time (content dedup then stores one part id several
@@ -80,6 +81,7 @@ type Driver struct {
 	lastPartBody map[string][]byte
 	lastMod      map[string]time.Time // bucket|key|modelVersion|writeSeq -> first observed Last-Modified
 	wasLatest    map[string]bool
+	hugeUsed     int
 	opN          int
 	Mutations    int
 	// Think is slept before every op (distinct timestamps, lets workers run).
@@ -330,6 +332,12 @@ func (d *Driver) bodySize(g *sim.Tape) int {
 	}
 	if d.Cfg.BigBodies && g.Chance(1, 12) {
 		return 1<<20 + g.Int(3<<20)
+	}
+	if d.hugeUsed < d.Cfg.HugeBodies && g.Chance(1, 5) {
+		// around the multiples of the 8 MiB chunk the part outbox and the SQL part store split parts into
+		d.hugeUsed++
+		d.rc.Stats.Inc("probe.huge_body")
+		return []int{8<<20 - 1, 8 << 20, 8<<20 + 1, 9449529, 16<<20 + 1}[g.Int(5)]
 	}
 	return sizes[g.Int(len(sizes))]
 }
